@@ -9,8 +9,9 @@ correspondence: the same sequence of output calls on the real document and on dr
 oracle:         on the real library, independent of the model, for one document and for several live documents
                 (unrelated ones, a parent and its embedded objects) with interleaved calls: deep snapshot of the document (tree,
                 parent/owner links, getElementsByType / getStyleByName results, Pictures, child objects,
-                instance attributes) before and after every call - equal, or equal to the snapshot with
-                the generator normalised; pairwise infoset comparison (expat) of repeated outputs of the
+                instance attributes) before and after every call - equal apart from the meta:generator children
+                of office:meta, which are untouched or normalised (exactly one, the library's string, found by
+                the query, wherever it sits); pairwise infoset comparison (expat) of repeated outputs of the
                 same kind (zips member-wise, timestamps ignored)
 """
 import io, zipfile, json, itertools
@@ -190,19 +191,39 @@ def gen_infoset(tv):
     return (GEN, (), (tv,) if tv else ())
 
 
-def normalise_snapshot(s, tv):
-    """what the snapshot must look like after `__replaceGenerator` - computed on the snapshot data only"""
+def split_generator(s):
+    """(snapshot with every meta:generator child of office:meta taken out of the tree and of the Generator query,
+        the generator children of office:meta in order, what getElementsByType(meta.Generator) returned)"""
     t = dict(s)
     top = s['tree']
-    fields = dict(s['fields'])
-    mi = fields['meta'][0]
-    m = top[2][mi]
-    kids = tuple(k for k in m[2] if not (len(k) == 3 and k[0] == GEN)) + ((GEN, (), ((3, tv),) if tv else ()),)
-    newm = (m[0], m[1], kids)
-    t['tree'] = (top[0], top[1], top[2][:mi] + (newm,) + top[2][mi + 1:])
-    bt = dict(s['byType']); bt['Generator'] = (gen_infoset(tv),)
+    mi = dict(s['fields'])['meta']
+    gens = ()
+    if mi:
+        m = top[2][mi[0]]
+        gens = tuple(k for k in m[2] if len(k) == 3 and k[0] == GEN)
+        newm = (m[0], m[1], tuple(k for k in m[2] if not (len(k) == 3 and k[0] == GEN)))
+        t['tree'] = (top[0], top[1], top[2][:mi[0]] + (newm,) + top[2][mi[0] + 1:])
+    bt = dict(s['byType']); found = bt.pop('Generator', ())
     t['byType'] = bt
-    return t
+    return t, gens, found
+
+
+def judge_own(prev, now, tv):
+    """the property for the document a call was made on: nothing but the generator metadata may differ, and the
+    generator metadata is either untouched or normalised - exactly one meta:generator child of office:meta, holding
+    the library's generator string, and found by the query - WHEREVER among the children it sits.
+    returns (verdict, detail): verdict in 'same', 'normalised', 'changed', 'generator'"""
+    if now == prev:
+        return 'same', ''
+    p, pg, pf = split_generator(prev)
+    n, ng, nf = split_generator(now)
+    if p != n:
+        return 'changed', 'apart from the generator elements it differs in %s' % snap_diff(p, n)
+    want = (GEN, (), ((3, tv),) if tv else ())
+    if ng == (want,) and nf == (gen_infoset(tv),):
+        return 'normalised', ''
+    return 'generator', ('office:meta now has %d meta:generator children %r and getElementsByType(Generator) returns %r; '
+                         'expected the old state or exactly one %r' % (len(ng), [g[2] for g in ng][:3], list(nf)[:3], tv))
 
 
 def snap_diff(a, b):
@@ -422,16 +443,14 @@ def run_sequence(chk, recipe, ops, T, tv, lines, pend):
         data = call(doc, op)
         now = snapshot(doc)
         # --- purity
-        if now != prev:
-            norm = normalise_snapshot(prev, tv)
-            if now != norm:
-                chk.fail('document-changed:' + op, dict(case, at=i),
-                         '%s() changed the document beyond generator normalisation: differs in %s (vs normalised: %s)'
-                         % (op, snap_diff(prev, now), snap_diff(norm, now)))
-            else:
-                chk.count('calls_that_normalised')
+        verdict, why = judge_own(prev, now, tv)
+        if verdict == 'changed':
+            chk.fail('document-changed:' + op, dict(case, at=i),
+                     '%s() changed the document beyond generator normalisation: %s' % (op, why))
+        elif verdict == 'generator':
+            chk.fail('generator-not-normalised:' + op, dict(case, at=i), 'after %s(): %s' % (op, why))
         else:
-            chk.count('calls_that_changed_nothing')
+            chk.count('calls_that_normalised' if verdict == 'normalised' else 'calls_that_changed_nothing')
         if now['links']:
             chk.fail('broken-links:' + op, dict(case, at=i), 'after %s(): %s' % (op, list(now['links'])[:4]))
         prev = now
@@ -491,11 +510,12 @@ def run_world(chk, recipes, calls, tv):
             if now[j] == prev[j]:
                 continue
             if j == i:
-                norm = normalise_snapshot(prev[j], tv)
-                if now[j] != norm:
+                verdict, why = judge_own(prev[j], now[j], tv)
+                if verdict == 'changed':
                     chk.fail('document-changed:' + op, dict(case, at=step),
-                             '%s() on document %d changed it beyond generator normalisation: differs in %s'
-                             % (op, i, snap_diff(norm, now[j])))
+                             '%s() on document %d changed it beyond generator normalisation: %s' % (op, i, why))
+                elif verdict == 'generator':
+                    chk.fail('generator-not-normalised:' + op, dict(case, at=step), 'after %s() on document %d: %s' % (op, i, why))
             else:
                 chk.fail('other-document-changed:' + op, dict(case, at=step),
                          'call %d, %s() on live document %d, changed live document %d: differs in %s'
